@@ -1778,6 +1778,11 @@ func (sc *serverConn) closeStream(st *stream, err error) {
 		sc.curClientStreams--
 	}
 	delete(sc.streams, st.id)
+	// Drop the frames the stream still has queued before anything below runs
+	// the frame scheduler (the connection-level WINDOW_UPDATE for unread body
+	// bytes, a graceful GOAWAY): a frame popped for a stream that is already
+	// in stateClosed makes startFrameWrite panic.
+	sc.writeSched.CloseStream(st.id)
 	if len(sc.streams) == 0 {
 		sc.setConnState(http.StateIdle)
 		if sc.srv.IdleTimeout > 0 && sc.idleTimer != nil {
@@ -1804,7 +1809,6 @@ func (sc *serverConn) closeStream(st *stream, err error) {
 	st.closeErr = err
 	st.cancelCtx()
 	st.cw.Close() // signals Handler's CloseNotifier, unblocks writes, etc
-	sc.writeSched.CloseStream(st.id)
 }
 
 func (sc *serverConn) processSettings(f *SettingsFrame) error {
